@@ -100,11 +100,14 @@ func TestGet(t *testing.T) {
 			bg := context.Background()
 			chain := vh.NewChain(networkID, 1, 10, time.Now().Add(-time.Hour), time.Second, 0)
 			wanted, other := chain.At(5), chain.At(6)
-			net, hosts := newNet(t, n+1)
+			// one more connected peer that is NOT trusted and answers every request honestly at once: Get and GetByHeight
+			// ask trusted peers only, whatever else is connected
+			net, hosts := newNet(t, n+2)
 			var trusted []peer.ID
 			for i := 0; i < n; i++ {
 				trusted = append(trusted, hosts[i+1].ID())
 			}
+			newSpeer(hosts[n+1], false, func(reqLog) plan { return plan{items: []item{okItem(wanted)}, end: "close"} })
 			for _, c := range groups[n] {
 				in := mbt.Map(c, "in")
 				id := mbt.Int(c, "id")
@@ -125,6 +128,13 @@ func TestGet(t *testing.T) {
 				ex := newExchange(t, hosts[0], trusted, 0)
 				noChainPin = false
 				synctest.Wait()
+				if mbt.Bool(in, "offline") {
+					// replay-only dimension: no trusted peer is connected when the call is made (they are dialled for it)
+					for i := 1; i <= n; i++ {
+						_ = net.DisconnectPeers(hosts[0].ID(), hosts[i].ID())
+					}
+					synctest.Wait()
+				}
 				type out struct {
 					h   *vh.Header
 					err error
